@@ -3,5 +3,6 @@ PROPS = {
     'C06': {'harness': ['harness/C06_sem.py']},
     'C09': {'harness': ['harness/C09_upload.py']},
     'C10': {'harness': ['harness/C10_state.py']},
+    'C15': {'harness': ['harness/C15_share.py']},
     'C17': {'harness': ['harness/C17_subst.py']},
 }
